@@ -19,10 +19,30 @@ pub fn pin_time(ctx: &mut Context) {
 
 /// Core definitions + date patterns, clock pinned, humanize off.
 pub fn new_ctx() -> Context {
-    let mut ctx = rink_core::simple_context().expect("simple_context");
+    // like rink_core::simple_context(), but a database that reports problems while
+    // loading (possible on a modified tree) is still used: whatever loaded is
+    // what the checks then examine. C08 is the check that judges the load itself.
+    let mut ctx = Context::new();
+    let units = rink_core::DEFAULT_FILE.expect("bundle-files feature");
+    let dates = rink_core::DATES_FILE.expect("bundle-files feature");
+    if let Err(e) = ctx.load_definitions(units) {
+        static WARNED: std::sync::Once = std::sync::Once::new();
+        WARNED.call_once(|| {
+            eprintln!(
+                "note: the bundled definitions report problems while loading: {}",
+                e.lines().take(3).collect::<Vec<_>>().join(" | ")
+            );
+        });
+    }
+    ctx.load_date_file(dates);
     pin_time(&mut ctx);
     ctx.use_humanize = false;
     ctx
+}
+
+/// new_ctx under catch: Err(panic text) when loading the bundled database panics
+pub fn try_new_ctx() -> Result<Context, String> {
+    catch(new_ctx)
 }
 
 /// Core + currency overlay from the repo's snapshot.
